@@ -572,7 +572,10 @@ class PrecipitateModel (PrecipitateBase):
             growthRate = np.zeros(self.PBM[p].bins + 1)
             return growthRate, xEqAlpha, xEqBeta
 
-        growth_result = self.therm.getGrowthAndInterfacialComposition(xComp, T, dGs[p] * self.precipitateParameters[p].volume.Vm, self.PBM[p].PSDbounds, self.particleGibbs(phase=self.precipitateParameters[p].phase), precPhase=self.precipitateParameters[p].phase, removeCache=self.removeCache, searchDir = self._precBetaTemp[p])
+        #The Gibbs-Thomson term of each size class (particleGibbs) contains the strain energy, so the driving force
+        #    passed here has to be the chemical one (the recorded driving force already has the strain energy taken off)
+        chemDG = (dGs[p] + self._precStrainTemp[p]) * self.precipitateParameters[p].volume.Vm
+        growth_result = self.therm.getGrowthAndInterfacialComposition(xComp, T, chemDG, self.PBM[p].PSDbounds, self.particleGibbs(phase=self.precipitateParameters[p].phase), precPhase=self.precipitateParameters[p].phase, removeCache=self.removeCache, searchDir = self._precBetaTemp[p])
 
         #If two-phase equilibrium not found, two possibilities - precipitates are unstable or equilibrium calculations didn't converge
         #We try to avoid this as much as possible to where if precipitates are unstable, then attempt to get a growth rate from the nearest composition on the phase boundary
